@@ -431,12 +431,14 @@ func dirOf(s string) supervision.Directive {
 	panic("bad directive " + s)
 }
 
-func (h *Harness) apply(dir string, record *supervision.AccidentRecord) {
+// decider: instance number of the supervisor object that took the decision by its own implemented Strategy (-1: the victim's
+// own strategy decided)
+func (h *Harness) apply(dir string, record *supervision.AccidentRecord, decider int) {
 	sup := RefOther
 	if record.Supervisor != nil {
 		sup = h.tokenOf(record.Supervisor.Ref())
 	}
-	h.emit(Obs{K: "DEC", A: sup, Who: h.tokenOf(record.Victim), Dir: dir, Inst: record.State.AccidentCount()})
+	h.emit(Obs{K: "DEC", A: sup, Who: h.tokenOf(record.Victim), Dir: dir, Inst: record.State.AccidentCount(), N: decider})
 	switch dir {
 	case "restart":
 		record.Supervisor.Restart(record.Victim)
@@ -459,7 +461,7 @@ func (a supActor) OnPolicyDecision(record *supervision.AccidentRecord) {
 	if k >= len(a.role.Sup) {
 		k = len(a.role.Sup) - 1
 	}
-	a.h.apply(a.role.Sup[k], record)
+	a.h.apply(a.role.Sup[k], record, a.inst)
 }
 
 // scriptedPanic is the value the scripted "panic" action panics with: any other panic coming out of an action is the
@@ -633,7 +635,7 @@ func (h *Harness) spawn(ctx spawner, tok, roleIdx int) {
 		if role.Victim != "" {
 			dir := role.Victim
 			d.WithSupervisionStrategyProvider(supervision.FunctionalStrategyProvider(func() supervision.Strategy {
-				return supervision.FunctionalStrategy(func(record *supervision.AccidentRecord) { h.apply(dir, record) })
+				return supervision.FunctionalStrategy(func(record *supervision.AccidentRecord) { h.apply(dir, record, -1) })
 			}))
 		}
 	})
